@@ -80,6 +80,30 @@ reg('C20', 'E3',
     'are decided for every reachable state within the bounds. States are merged only on (pending counts per relative slot, ring position).',
     'Trusted: the reference queue (vf/props/c20.py Ref), exact binary grid steps. Bounded by history length and pending-count cap.', '4 C20')
 
+reg('C07', 'E3',
+    'exhaustive enumeration of the option lattice of py_simulate_model on the real entry point',
+    'The full product {stochastic} x {delay None/False/True} x {safe} x {volume: False, True, number, Volume object, initialised growing '
+    'volume, dividing volume} x {data frame, result object} x {Model, pre-built interface} x 4 models x grid lengths is called on the '
+    'real entry point; each outcome is either a complete, correctly labelled result (time axis, species columns in model order, volume '
+    'column, first row = initial condition with rules) or an explicit option error. The lattice is finite and enumerated completely.',
+    'Trusted: the oracle\'s notion of an explicit option error (ValueError/TypeError naming an option). Values inside the result are not '
+    'judged here (C05/C10/C11 do that).', '4 C07')
+reg('C15', 'E2+E3',
+    'bounded-exhaustive enumeration of inference set-ups and evaluation histories on the real InferenceSetup vs closed-form posterior',
+    'All cases of a grammar (3 linear models with matrix-exponential solutions x 1..4 trajectories x measured-species subsets and orders x '
+    'norm orders x initial/parameter-condition shapes incl. differing key sets x time grids) are built on the real InferenceSetup; the data '
+    'array alignment, cost(theta) against the closed form (incl. -inf outside the prior), every evaluation sequence up to the history bound '
+    'against a fresh set-up, and every permutation of measurement columns and trajectories are checked; the stochastic cost is checked for '
+    'alignment on a stream-independent model.',
+    'Trusted: scipy.linalg.expm as the exact solution; 1e-5 relative tolerance for the ODE solver, 1e-9 for history/permutation equality.',
+    '4 C15')
+reg('C16', 'E2',
+    'exhaustive enumeration of prior families x parameter and value alphabets on the real check_prior / cost_function vs scipy.stats',
+    'Every built-in prior family x parameter alphabet x positive flag x value alphabet (interior, support edges +-{0,1e-9,1e-3}, negative, '
+    '>1) and every 2..4-parameter combination from a 7-family menu is evaluated through PIDInterface.check_prior and '
+    'InferenceSetup.cost_function and compared with scipy.stats log-densities (1e-10) or required to be rejected (non-finite / -inf).',
+    'Trusted: scipy.stats densities as the meaning of the family names. Values whose density underflows a double are not compared.', '4 C16')
+
 def hook_commits():
     try:
         out = subprocess.run(['git', '-C', '/repo', 'log', '--format=%h %s'], stdout=subprocess.PIPE).stdout.decode()
